@@ -736,3 +736,50 @@ Theorem option_filters_example_thm :
   go_keepRelayable [I_EDNS0_other 10; sub; ede; sub] = [ede].
 Proof. exact opts_example. Qed.
 Print Assumptions option_filters_example_thm.
+
+(* WHICH OPTION IS FORWARDED.  The option loop of dnsutil.SetEdns0, translated (loopfunc): for every OPT and
+   every state before the loop it runs to its end (no early return, never out of budget), leaves the OPT
+   alone, ors "NSID asked" in, and hands on the LAST subnet option of the list — the one that was there
+   before the loop (nil in the Go code) when the list has none; on the options as the drivers print them
+   that is the model's last_ecs: new_opts clamps the very option the code's own loop selects, and
+   "clientSubnet != nil" after the loop is "some option is a subnet option". *)
+Theorem translated_option_loop_selects_the_last_subnet_option : forall nsid opt cookie cs,
+  (exists cookie',
+     go_SetEdns0_loop1_run nsid opt cookie cs =
+       (GoNext, (nsid || existsb is_nsid (T_OPT_Option opt), opt, cookie',
+                 match last_subnet (T_OPT_Option opt) with Some v => v | None => cs end))) /\
+  last_ecs (map abs_opt (T_OPT_Option opt)) = option_map abs_subnet (last_subnet (T_OPT_Option opt)) /\
+  ((exists v, last_subnet (T_OPT_Option opt) = Some v) <-> existsb is_subnet (T_OPT_Option opt) = true).
+Proof.
+  intros. split; [apply gen_SetEdns0_loop|]. split; [apply last_subnet_is_model_last_ecs|apply last_subnet_some_iff].
+Qed.
+Print Assumptions translated_option_loop_selects_the_last_subnet_option.
+
+(* THE RECORD FILTER.  dnsutil.filterOut translated with its predicate as an argument (a pure function of
+   the record): for EVERY list and predicate the result is the list without the records the predicate
+   names, order kept.  dropOtherOPT ("every OPT other than the selected one") and ClearOPT go through it;
+   ClearOPT — translated as a whole with the package function isOPT as the value — leaves NO OPT record
+   and touches nothing else: the reply to a client that sent no OPT carries none (reply_ecs_counts = []). *)
+Theorem translated_record_filter_drops_exactly_what_the_predicate_names : forall rrs drop,
+  go_filterOut rrs drop = filter (fun r => negb (drop r)) rrs.
+Proof. exact gen_filterOut. Qed.
+Print Assumptions translated_record_filter_drops_exactly_what_the_predicate_names.
+
+Theorem translated_ClearOPT_leaves_no_opt : forall m,
+  T_Msg_Extra (go_ClearOPT m) = filter (fun r => negb (go_isOPT r)) (T_Msg_Extra m) /\
+  count_opt (map abs_rr (T_Msg_Extra (go_ClearOPT m))) = 0%nat /\
+  T_Msg_Answer (go_ClearOPT m) = T_Msg_Answer m /\ T_Msg_Ns (go_ClearOPT m) = T_Msg_Ns m.
+Proof.
+  intros m. destruct (gen_ClearOPT m) as [A [B [C _]]]. split; [exact A|]. split; [apply ClearOPT_no_opt|]. split; assumption.
+Qed.
+Print Assumptions translated_ClearOPT_leaves_no_opt.
+
+Theorem option_loop_example_thm :
+  let s1 := mk_T_EDNS0_SUBNET 8 1 32 0 [203; 0; 113; 77] in
+  let s2 := mk_T_EDNS0_SUBNET 8 2 56 0 [32; 1; 13; 184; 0; 1; 0] in
+  let hdr := mk_T_RR_Header [] 41 1232 0 0 in
+  let opt := mk_T_OPT hdr [I_EDNS0_of_EDNS0_SUBNET s1; I_EDNS0_of_EDNS0_NSID (mk_T_EDNS0_NSID 3 []); I_EDNS0_of_EDNS0_SUBNET s2; I_EDNS0_other 12] in
+  snd (go_SetEdns0_loop1_run false opt [] (mk_T_EDNS0_SUBNET 0 0 0 0 [])) = (true, opt, [], s2) /\
+  go_filterOut [I_RR_of_OPT opt; I_RR_other 1 hdr; I_RR_of_OPT (mk_T_OPT hdr [])] go_isOPT = [I_RR_other 1 hdr].
+Proof. vm_compute. split; reflexivity. Qed.
+Print Assumptions option_loop_example_thm.
